@@ -135,7 +135,7 @@ def _data(seed, n):
 
 
 # kind: 0 = socket.send, 1 = socket.recv, 2 = file_object.read
-LOGIN_OPS = [(0, 5), (1, 4), (2, 3), (0, 0), (0, 4), (2, 2), (1, 3)]
+LOGIN_OPS = [(0, 3), (1, 2), (2, 2), (0, 0), (0, 2), (2, 1), (1, 2)]
 # after the second (randomly padded) reply the encryptors' registers are random: receive side only
 NESTED_OPS = [(1, 5), (2, 3), (1, 2)]
 
@@ -300,7 +300,7 @@ def generate():
     out += [
         '/-- Logins 0-2 reuse one `Connection` object; before each login one unrelated',
         '`os.urandom(16)` call is made. -/',
-        'def logins : List LoginRow := [%s]' % ', '.join('login%d' % i for i in range(len(logins))),
+        'def loginRows : List LoginRow := [%s]' % ', '.join('login%d' % i for i in range(len(logins))),
         '',
         '/-- Two encryption requests on one connection. -/',
         'structure NestedRow where',
